@@ -8,7 +8,7 @@
    for an arbitrary H (the theorems hold for every hash function). *)
 From Coq Require Import NArith List Bool.
 From ELA Require Import lib.GoSem lib.Bytes lib.VarInt model.C02_Fmt model.C02_Descr model.C04_Codec
-  model.C04_Payloads proof.C02_Safe proof.C04_Roundtrip proof.C04_Tx proof.C04_Payloads.
+  model.C04_Payloads model.C04_Proposal proof.C02_Safe proof.C04_Roundtrip proof.C04_Tx proof.C04_Payloads proof.C04_Proposal.
 From ELA Require corr.C04_corr.
 Import ListNotations.
 Local Open Scope N_scope.
@@ -135,6 +135,23 @@ Theorem C04_voting_roundtrip : forall pv x rest,
   dec_payload 99 pv (voting_of pv) (enc_payload 99 pv (voting_v x) ++ rest) = Ok (x, rest).
 Proof. exact voting_roundtrip. Qed.
 Print Assumptions C04_voting_roundtrip.
+
+(* payload.CRCProposal, all proposal types (normal/ELIP with budgets, change of
+   proposal owner with NewRecipient / NewOwnerKey / NewOwnerSignature, close,
+   secretary general, upgrade code, side-chain registration, reserve / receive
+   custom id, custom id fee): the record's body must be the one its proposal
+   type selects ([kind_ok]) and the value well typed for the payload version. *)
+Theorem C04_proposal_roundtrip : forall pv p rest, kind_ok p = true ->
+  wt_payload 37 pv (proposal_v p) = true ->
+  dec_payload 37 pv proposal_of (enc_payload 37 pv (proposal_v p) ++ rest) = Ok (p, rest).
+Proof. exact proposal_roundtrip. Qed.
+Print Assumptions C04_proposal_roundtrip.
+
+(* one well-formed proposal of each of the nine shapes, the first a
+   ChangeProposalOwner with draft data under payload version 1 *)
+Example C04_proposal_nonvacuous :
+  forallb (fun x => kind_ok (snd x) && wt_payload 37 (fst x) (proposal_v (snd x))) sample_proposals = true.
+Proof. exact proposal_samples. Qed.
 
 (* non-vacuity of the typed payload theorems: concrete well-typed records *)
 Example C04_payloads_nonvacuous :
